@@ -127,6 +127,31 @@ CLAIMS = {
         "through simulator.run, with the dense vector.",
         COMMON_NOTE,
         "DESIGN.md §3 C11"),
+    "C01": (
+        "Coq proof (lottery attribution/permutation covariance, distribution facts and rate identity over R; pipeline-word shape by induction) + probability-vector correspondence against dense jump norms + whole-outcome-tree search against the dense Lindblad solution",
+        "Machine-checked proof that the k-th probability belongs to the k-th listed process for every list and chain length, that "
+        "permuting the list permutes the weights with it, that the probabilities are non-negative and sum to one, that in the "
+        "averaged post-lottery state each process enters with its own rate (the jump norm cancels; to first order exactly dt*gamma_k), "
+        "and that the order-2 / order-1 pipelines have the Strang / Lie shape with a total dissipation time of j*dt. The binary64 "
+        "instance of the lottery model is compared (1e-9) with the real create_probability_distribution on random entangled "
+        "sub-normalised states and random process lists of every kind, and the process actually applied for a forced index is "
+        "checked on the dense vector. The search enumerates the WHOLE outcome tree of one-step trajectories (TJM order 1, order 2, "
+        "MCWF) with the probabilities the code itself uses and compares the average with the dense Lindblad solution at dt and dt/2 "
+        "(local error must fall ~4x) and under reversal of the process list. PARTIAL: 'first-order consistent + symmetric "
+        "composition => global O(dt^2) at fixed step count' and the exponentials themselves are not mechanised.",
+        COMMON_NOTE + "Axioms: standard-library real-number axioms for the theorems over R.",
+        "DESIGN.md §3 C01"),
+    "C03": (
+        "Coq proof (local-process selection, lottery facts on the local list, schedule facts) + exact per-gate noise-event correspondence + outcome-tree search for noisy circuits",
+        "Machine-checked proof of which processes form the local noise model of a gate on (a,b) (exactly those on [a,b], [a], [b], in "
+        "list order), of the lottery facts of C01 on that list and of the schedule facts of C02. The real digital_tjm loop is traced: "
+        "one-qubit gates are followed by no noise call, every two-qubit gate by dissipation and lottery with dt = 1 over exactly the "
+        "processes the model selects, in order (random circuits x random lists with duplicates and unsorted sites). The search "
+        "enumerates the whole outcome tree of circuits with <= 2 two-qubit gates and compares the average with 'exact gate, then "
+        "unit-time Lindblad channel of the local processes' at strengths g and g/2 (error must fall ~4x). PARTIAL: the O(g^2) remainder "
+        "and the exactness of gate application (C02) are not mechanised.",
+        COMMON_NOTE + "Axioms: standard-library real-number axioms for the theorems over R.",
+        "DESIGN.md §3 C03"),
 }
 
 NOT_YET = "check not built yet in this round (planned in DESIGN.md §3); no claim is made"
